@@ -41,25 +41,67 @@ func NewSolver(work string, seed int, quick, full int) *Solver {
 }
 
 func (x *Exec) script(o *Obl, inputs []ModelVar) string {
+	// Select the assertions that matter: every non-definitional one, and the definitions
+	// (= fresh-symbol term) whose symbol is (transitively) used. Dropping an unused definition of a
+	// fresh symbol keeps the query equisatisfiable and much smaller.
+	used := map[string]bool{}
+	if !o.ExpectSat {
+		symbolsOf(o.Goal.S, used)
+	}
+	for _, a := range o.Axioms {
+		symbolsOf(a.S, used)
+	}
+	keep := make([]bool, len(o.PC))
+	for i, p := range o.PC {
+		if p.Def == "" {
+			keep[i] = true
+			symbolsOf(p.S, used)
+		}
+	}
+	for i := len(o.PC) - 1; i >= 0; i-- {
+		p := o.PC[i]
+		if p.Def != "" && used[p.Def] {
+			keep[i] = true
+			symbolsOf(p.S, used)
+		}
+	}
+	var getv []string
+	for _, in := range inputs {
+		syms := map[string]bool{}
+		symbolsOf(in.Term, syms)
+		ok := true
+		for sname := range syms {
+			if !used[sname] && o.D != nil && o.D.declared(sname) {
+				ok = false
+				break
+			}
+		}
+		if ok {
+			getv = append(getv, in.Term)
+		}
+	}
 	var b strings.Builder
 	b.WriteString("(set-option :produce-models true)\n(set-logic ALL)\n")
-	b.WriteString(o.Decls)
+	if o.D != nil {
+		b.WriteString(o.D.TextFor(used))
+	} else {
+		b.WriteString(o.Decls)
+	}
 	for _, a := range o.Axioms {
 		fmt.Fprintf(&b, "(assert %s)\n", a.S)
 	}
-	for _, p := range o.PC {
-		fmt.Fprintf(&b, "(assert %s)\n", p.S)
+	for i, p := range o.PC {
+		if keep[i] {
+			fmt.Fprintf(&b, "(assert %s)\n", p.S)
+		}
 	}
 	if !o.ExpectSat {
 		fmt.Fprintf(&b, "(assert (not %s))\n", o.Goal.S)
 	}
 	b.WriteString("(check-sat)\n")
-	if len(inputs) > 0 {
+	if len(getv) > 0 {
 		b.WriteString("(get-value (")
-		for _, in := range inputs {
-			b.WriteString(in.Term)
-			b.WriteByte(' ')
-		}
+		b.WriteString(strings.Join(getv, " "))
 		b.WriteString("))\n")
 	}
 	return b.String()
@@ -86,6 +128,7 @@ func (x *Exec) finalize(obls []*Obl) {
 	ax = append(ax, x.axioms...)
 	for _, o := range obls {
 		o.Decls = decls
+		o.D = x.D
 		o.Axioms = ax
 		o.Inputs = x.inputs
 	}
@@ -304,6 +347,7 @@ func (s *Solver) DischargeAll(x *Exec, obls []*Obl, par int) []*OblResult {
 		byName[o.Name] = append(byName[o.Name], o)
 	}
 	results := map[*Obl]*SolveResult{}
+	coverSat := map[string]bool{}
 	var mu sync.Mutex
 	jobs := make(chan job)
 	var wg sync.WaitGroup
@@ -312,9 +356,24 @@ func (s *Solver) DischargeAll(x *Exec, obls []*Obl, par int) []*OblResult {
 		go func() {
 			defer wg.Done()
 			for j := range jobs {
+				if j.o.ExpectSat {
+					// a cover needs one satisfiable instance only
+					mu.Lock()
+					done := coverSat[j.o.Name]
+					mu.Unlock()
+					if done {
+						mu.Lock()
+						results[j.o] = &SolveResult{Status: "skipped", Backend: "-"}
+						mu.Unlock()
+						continue
+					}
+				}
 				r := s.Solve(j.o.Name, j.script, j.o.ExpectSat)
 				mu.Lock()
 				results[j.o] = r
+				if j.o.ExpectSat && r.Status == "sat" {
+					coverSat[j.o.Name] = true
+				}
 				mu.Unlock()
 			}
 		}()
@@ -350,7 +409,7 @@ func (s *Solver) DischargeAll(x *Exec, obls []*Obl, par int) []*OblResult {
 				switch sr.Status {
 				case "sat":
 					anySat = true
-				case "unsat":
+				case "unsat", "skipped":
 				default:
 					anyUnknown = true
 				}
